@@ -700,3 +700,146 @@ Proof.
   replace (1 / 2 - 1 / 2) with 0 by field. rewrite Rabs_R0.
   rbool. reflexivity.
 Qed.
+
+(* ------------------------------------------------------------------------- *)
+(* the converse half in exact arithmetic for a bracket away from the origin   *)
+(* ------------------------------------------------------------------------- *)
+Lemma bis_body_total {T} {NT : Num T} (f : T -> res T) tol cap s :
+  (forall x, exists v, f x = Ok v) -> exists s' b, bis_body f tol cap s = Ok (s', b).
+Proof.
+  intro Hf. unfold bis_body.
+  destruct (Hf (bs_lower s)) as (vl & ->). cbn [bind].
+  destruct (Hf (ndiv (nadd (bs_lower s) (bs_upper s)) ntwo)) as (vm & ->). cbn [bind].
+  eexists. eexists. reflexivity.
+Qed.
+
+(* once the bracket is narrow enough the relative-step test must fire *)
+Lemma narrow_bracket_breaks (f : R -> res R) tol cap lo hi m s s' :
+  0 < m -> 0 < tol -> (forall x, lo <= x <= hi -> m <= Rabs x) ->
+  Ibr lo hi s -> Iw lo hi s -> Iend s -> (1 <= bs_iter s)%nat ->
+  100 * (hi - lo) < tol * m * 2 ^ S (bs_iter s) ->
+  bis_body f tol cap s = Ok (s', false) -> False.
+Proof.
+  intros Hm Htol Haway (A & B & C) Hw He Hk Hnarrow Hb.
+  pose proof (bis_body_continue_not_exact f tol cap s s' Hb) as Hne.
+  destruct (bis_body_err_R f tol cap s s' false Hb Hne) as (_ & Herr).
+  apply bis_body_ok in Hb. destruct Hb as (vl & vm & _ & _ & _ & Hbrk & _).
+  rewrite Hne in Hbrk. cbn [orb] in Hbrk. symmetry in Hbrk.
+  apply orb_false_elim in Hbrk. destruct Hbrk as [Hbrk _].
+  replace (Nat.ltb 0 (bs_iter s)) with true in Hbrk by (symmetry; apply Nat.ltb_lt; lia).
+  cbn [andb] in Hbrk.
+  pose proof (bis_mid_R s) as Hmid.
+  assert (Hin : lo <= bis_mid s <= hi) by (rewrite Hmid; lra).
+  pose proof (Haway _ Hin) as Hab.
+  assert (Hnz : bis_mid s <> 0).
+  { intro Z. rewrite Z, Rabs_R0 in Hab. lra. }
+  rewrite Herr in Hbrk.
+  replace (Reqb (bis_mid s) 0) with false in Hbrk by (symmetry; apply Reqb_false; exact Hnz).
+  cbn [err_small nltb nabs RNum] in Hbrk. apply Rltb_false in Hbrk.
+  unfold Rdiv in Hbrk. rewrite !Rabs_mult, Rabs_Rabsolu, Rabs_inv in Hbrk.
+  rewrite (Rabs_pos_eq 100) in Hbrk by lra.
+  (* |mid - x_prev| is half the width *)
+  unfold Iw in Hw. pose proof (pow2_pos (bs_iter s)) as Hp.
+  assert (Hd : Rabs (bis_mid s - bs_x s) = (hi - lo) / 2 ^ S (bs_iter s)).
+  { assert (Hhalf : (bs_upper s - bs_lower s) / 2 = (hi - lo) / 2 ^ S (bs_iter s)).
+    { rewrite Hw. cbn [pow]. field. lra. }
+    destruct (He ltac:(lia)) as [E|E]; rewrite E, Hmid.
+    - replace ((bs_lower s + bs_upper s) / 2 - bs_lower s) with ((bs_upper s - bs_lower s) / 2) by lra.
+      rewrite Rabs_pos_eq by lra. exact Hhalf.
+    - replace ((bs_lower s + bs_upper s) / 2 - bs_upper s) with (- ((bs_upper s - bs_lower s) / 2)) by lra.
+      rewrite Rabs_Ropp, Rabs_pos_eq by lra. exact Hhalf. }
+  rewrite Hd in Hbrk.
+  pose proof (pow2_pos (S (bs_iter s))) as Hp2.
+  set (P := 2 ^ S (bs_iter s)) in *. set (a := Rabs (bis_mid s)) in *.
+  assert (Ha : 0 < a) by lra.
+  (* tol <= (hi-lo)/P * /a * 100  ->  tol * a * P <= 100 (hi-lo) *)
+  assert (H1 : tol * a * P <= 100 * (hi - lo)).
+  { apply (Rmult_le_compat_r (a * P)) in Hbrk; [|nra].
+    match type of Hbrk with _ <= ?rhs => replace rhs with (100 * (hi - lo)) in Hbrk by (field; lra) end.
+    lra. }
+  assert (H2 : tol * m * P <= tol * a * P).
+  { apply Rmult_le_compat_r; [lra|]. apply Rmult_le_compat_l; lra. }
+  lra.
+Qed.
+
+Lemma bis_loop_exits_by (g : R -> R) tol cap lo hi m K :
+  0 < m -> 0 < tol -> (forall x, lo <= x <= hi -> m <= Rabs x) ->
+  (1 <= K < cap)%nat -> 100 * (hi - lo) < tol * m * 2 ^ K ->
+  forall fuel s, Ibr lo hi s -> Iw lo hi s -> Iend s -> (bs_iter s <= K)%nat -> (cap <= bs_iter s + fuel)%nat ->
+  exists r, bis_loop (fun x => Ok (g x)) tol cap fuel s = Ok r /\ (bs_iter r <= K)%nat.
+Proof.
+  intros Hm Htol Haway HK Hnarrow.
+  set (f := fun x : R => Ok (g x)).
+  induction fuel as [|fuel IH]; intros s Hbr Hw He Hi Hfuel; [lia|].
+  destruct (bis_body_total f tol cap s) as (s' & b & Hb); [intro x; eexists; reflexivity|].
+  assert (Hit : bs_iter s' = bs_iter s).
+  { pose proof Hb as H. apply bis_body_ok in H. destruct H as (vl & vm & _ & _ & H & _). exact H. }
+  destruct b.
+  - exists s'. split; [|lia]. apply bis_loop_break. exact Hb.
+  - (* the loop goes on, so the bracket is not yet narrow: iter < K *)
+    assert (Hlt : (bs_iter s < K)%nat).
+    { destruct (Nat.lt_ge_cases (bs_iter s) K) as [|Hge]; [assumption|exfalso].
+      assert (bs_iter s = K) by lia.
+      apply (narrow_bracket_breaks f tol cap lo hi m s s' Hm Htol Haway Hbr Hw He); [lia| |exact Hb].
+      assert (2 ^ K <= 2 ^ S (bs_iter s)) by (apply Rle_pow; [lra|lia]).
+      assert (0 < tol * m) by nra.
+      assert (tol * m * 2 ^ K <= tol * m * 2 ^ S (bs_iter s)) by (apply Rmult_le_compat_l; lra).
+      lra. }
+    rewrite (bis_loop_continue f tol cap fuel s s' Hb).
+    apply IH.
+    + apply Ibr_next. exact (proj1 (Ibr_step f tol cap lo hi s s' false Hbr Hb)).
+    + pose proof (Iw_step f tol cap lo hi s s' false Hw Hb) as H.
+      rewrite (bis_body_continue_not_exact f tol cap s s' Hb) in H.
+      unfold Iw. cbn [bs_next bs_iter bs_lower bs_upper]. exact H.
+    + exact (Iend_step f tol cap s s' Hb).
+    + cbn [bs_next bs_iter]. lia.
+    + cbn [bs_next bs_iter]. lia.
+Qed.
+
+Lemma c06_finds_root_away_from_zero : forall (g : R -> R) lo init hi tol cap L X m K,
+  continuity g -> lo <= init <= hi -> g lo * g hi <= 0 -> 0 < tol ->
+  0 <= L -> (forall a b, lo <= a <= hi -> lo <= b <= hi -> Rabs (g a - g b) <= L * Rabs (a - b)) ->
+  (forall x, lo <= x <= hi -> Rabs x <= X) -> L * (tol / 100 * X) < 1 / 10000 ->
+  0 < m -> (forall x, lo <= x <= hi -> m <= Rabs x) ->
+  (1 <= K < cap)%nat -> 100 * (hi - lo) < tol * m * 2 ^ K ->
+  exists x, bisection (fun x => Ok (g x)) {| b_lower := lo; b_init := init; b_upper := hi |} tol cap = Ok x /\
+            lo <= x <= hi /\ Rabs (g x) < 1 / 10000 /\
+            exists z, g z = 0 /\ lo <= z <= hi /\ (g x = 0 \/ Rabs (x - z) * 100 < tol * Rabs x).
+Proof.
+  intros g lo init hi tol cap L X m K Hc Hin Hs Htol HL0 HL HX Hsmall Hm Haway HK Hnarrow.
+  destruct (bis_loop_exits_by g tol cap lo hi m K Hm Htol Haway HK Hnarrow cap
+              (bis_start {| b_lower := lo; b_init := init; b_upper := hi |})) as (r & Hl & Hir).
+  - apply bis_start_Ibr. lra.
+  - unfold Iw, bis_start. cbn. field.
+  - intro H. cbn in H. lia.
+  - cbn. lia.
+  - cbn. lia.
+  - assert (Hlt : (bs_iter r < cap)%nat) by lia.
+    pose proof (c06_exit_before_cap_is_ok g lo init hi tol cap r L X Hc Hin Hs Hl Hlt HL0 HL HX Hsmall) as Hok.
+    exists (bs_x r). split; [exact Hok|].
+    destruct (c06_sound _ _ _ _ _ _ _ Hok) as (Hx & v & Hv & Hg). injection Hv as <-.
+    split; [exact Hx|]. split; [exact Hg|].
+    destruct (c06_finds_root_partial g lo init hi tol cap r Hc ltac:(lra) Hs Hl)
+      as (_ & Hex & _ & z & Hz & Hzin & _ & _ & Htolx).
+    exists z. split; [exact Hz|]. split; [exact Hzin|].
+    destruct (bs_exact r) eqn:E; [left; apply Hex; reflexivity|right].
+    exact (proj2 (Htolx eq_refl Hlt)).
+Qed.
+
+(* non-vacuity of c06_finds_root_away_from_zero: x^2 - 4 on [1, 3], init 2, tol 1e-4 (percent), cap 100;
+   L = 6, X = 3, m = 1, K = 21 *)
+Lemma c06_example_away_from_zero :
+  exists x, bisection (s_eval_univariate px2m4) {| b_lower := 1; b_init := 2; b_upper := 3 |} (1 / 10000) 100 = Ok x /\
+            1 <= x <= 3 /\ Rabs (eval_simple px2m4 x) < 1 / 10000.
+Proof.
+  destruct (c06_finds_root_away_from_zero (eval_simple px2m4) 1 2 3 (1 / 10000) 100 6 3 1 21)
+    as (x & Hx & Hin & Hg & _); try lra; try lia.
+  - apply eval_simple_continuity.
+  - rewrite !px2m4_eval. lra.
+  - intros a b Ha Hb. rewrite !px2m4_eval.
+    replace (a * a - 4 - (b * b - 4)) with ((a + b) * (a - b)) by ring.
+    rewrite Rabs_mult. apply Rmult_le_compat_r; [apply Rabs_pos|]. apply Rabs_le. lra.
+  - intros x Hx. apply Rabs_le. lra.
+  - intros x Hx. rewrite Rabs_pos_eq; lra.
+  - exists x. repeat split; try assumption; lra.
+Qed.
